@@ -408,6 +408,7 @@ func runWorker(master uint64, worker, workers, scheds, maxProgs int, budget floa
 			st.Probes["blocked_yields"] += r.Stats.BlockedYields
 			st.Probes["once_waits"] += r.Stats.OnceWaits
 			st.Probes["rwmutex_writer_queued"] += r.Stats.WriterQueued
+			st.Probes["cond_waits"] += r.Stats.CondWaits
 			st.Probes["timers_armed"] += r.Stats.TimersArmed
 			st.Probes["timers_fired"] += r.Stats.TimersFired
 			st.Probes["clock_jumps_to_next_timer"] += r.Stats.TimerJumps
